@@ -3,6 +3,7 @@ import PromProofs.HistLayout
 import PromProofs.HistSide
 import PromProofs.HistIdxBoth2
 import PromProofs.HistSeries
+import PromProofs.HistChunkRT
 /-
   C11 — Native histograms are stored and read back faithfully (layout level).
   Property theorems only; the model is PromModel/Tsdb/HistLayout.lean, lemmas are in
@@ -200,5 +201,42 @@ theorem caller_unchanged_partial (t : Int) (h : Hist) (r : AppRes)
   · by_cases hr' : h.hint = .reset
     · simp [hr'] at hr; subst hr; rfl
     · simp [hg, hr'] at hr; subst hr; rfl
+
+/-! ## stage 2: the bytes -/
+
+/-- **histchunk_roundtrip (integer histogram chunks, exponential schemas).**  `Prom.HistChunk.encodeChunk` is the
+    transcription of `HistogramAppender.appendHistogram`/`writeHistogramChunkLayout` on C10's bit stream (compared
+    byte for byte with the real `HistogramChunk.Bytes()` in suite `histbytes`), `decodeChunk` the transcription of
+    `histogramIterator.Next`/`readHistogramChunkLayout`.  For every chunk whose values stay inside ±2^61 (so that
+    no delta-of-delta wraps), whose layout is encodable (no -0.0 threshold, not the custom-bounds schema) and whose
+    stored samples have the shape the appender produces (bucket slices as long as the layout, staleness markers
+    empty and only at the end), decoding the encoded bytes gives back exactly the chunk: header, layout, every
+    sample.  Together with `append_roundtrip` this is the bit-level leg of "stored and read back faithfully". -/
+theorem histchunk_roundtrip (c : Chunk) (s0 : Stored) (ss : List Stored) (ok : Prom.HistChunk.ChunkOk c s0 ss) :
+    Prom.HistChunk.decodeChunk (Prom.HistChunk.encodeChunk c) = some c :=
+  Prom.HistChunk.decodeChunk_encodeChunk c s0 ss ok
+
+/-- the hypotheses are met by a concrete two-sample chunk -/
+example : Prom.HistChunk.ChunkOk
+    { float := false, hdr := .notReset, schema := 3, zt := 0, custom := [], pSpans := [⟨-2, 1⟩], nSpans := [],
+      rev := [⟨2000, 12, 1, 0x4028000000000000, [5], []⟩, ⟨1000, 7, 1, 0x401c000000000000, [2], []⟩] }
+    ⟨1000, 7, 1, 0x401c000000000000, [2], []⟩ [⟨2000, 12, 1, 0x4028000000000000, [5], []⟩] := by
+  have i64 : ∀ x : Int, -1000 ≤ x → x ≤ 1000 → Prom.Bits.I64 x := by
+    intro x h1 h2; simp only [Prom.Bits.I64, Prom.Bits.two63]; omega
+  have sm : ∀ x : Int, -3000 ≤ x → x ≤ 3000 → Prom.HistChunk.Sm x := by
+    intro x h1 h2; simp only [Prom.HistChunk.Sm]; omega
+  refine ⟨rfl, by decide, ⟨by decide, by decide, i64 _ (by decide) (by decide), by decide, rfl, ?_,
+    (by intro s hs; simp [Prom.HistChunk.layoutOf] at hs), by decide, by decide⟩, rfl, ⟨rfl, rfl⟩, ?_, ⟨fun h => by simp [staleBits] at h, trivial⟩⟩
+  · intro s hs
+    simp only [Prom.HistChunk.layoutOf, List.mem_singleton] at hs
+    subst hs
+    exact ⟨i64 _ (by decide) (by decide), by decide⟩
+  · intro s hs
+    simp only [List.mem_cons, List.not_mem_nil, or_false] at hs
+    rcases hs with rfl | rfl
+    · exact ⟨sm _ (by decide) (by decide), by decide, by decide, by decide, fun h => by simp [staleBits] at h,
+        fun _ => ⟨rfl, rfl, fun b hb => by simp at hb; subst hb; exact sm _ (by decide) (by decide), by simp⟩⟩
+    · exact ⟨sm _ (by decide) (by decide), by decide, by decide, by decide, fun h => by simp [staleBits] at h,
+        fun _ => ⟨rfl, rfl, fun b hb => by simp at hb; subst hb; exact sm _ (by decide) (by decide), by simp⟩⟩
 
 end Prom.C11
